@@ -1200,7 +1200,31 @@ class Exec:
         r = self.ctx.contracts.delete(self, node, st)
         if r is not None:
             return r
-        raise Unsupported("del at line %d" % node.lineno)
+        outs = []
+        states = [st]
+        for tgt in node.targets:
+            if not (isinstance(tgt, ast.Subscript) and not isinstance(tgt.slice, ast.Slice)):
+                raise Unsupported("del of %s at line %d" % (type(tgt).__name__, node.lineno))
+            nxt = []
+            for s0 in states:
+                for vals, s in self.eval_seq([tgt.value, tgt.slice], s0):
+                    if isinstance(vals, Exc):
+                        outs.append(Outcome("raise", s, vals))
+                        continue
+                    base, idx = vals
+                    if not isinstance(base, (FieldRef, SList)):
+                        raise Unsupported("del item of %r (line %d)" % (base, node.lineno))
+                    # del L[i]  ==  L.pop(i) without using the value
+                    fake = ast.Call(func=ast.Attribute(value=tgt.value, attr="pop", ctx=ast.Load()), args=[], keywords=[])
+                    ast.copy_location(fake, node)
+                    ast.copy_location(fake.func, node)
+                    for v, s2 in self.list_method(base, "pop", [idx], s, fake):
+                        if isinstance(v, Exc):
+                            outs.append(Outcome("raise", s2, v))
+                        else:
+                            nxt.append(s2)
+            states = nxt
+        return outs + [Outcome("next", s) for s in states]
 
     def s_Try(self, node, st):
         outs = []
